@@ -349,20 +349,51 @@ theorem cfb254_digest_tamper_rejected {Mat} (P : Prims) (L : Laws P) (C : CfbLaw
 
 /-! ## 255 and the legacy cipher octets: a 16-bit sum, stated honestly -/
 
-/-- all that stands between a tampered / wrongly decrypted blob and acceptance is: it parses, and
-two octets equal the 16-bit sum of the re-serialised material -/
+/-- all that stands between a tampered / wrongly decrypted blob and acceptance is: what precedes the
+last two octets parses completely, and those two octets equal the 16-bit sum of the stored octets -/
 theorem sum16_is_the_only_check_255 {Mat} (P : Prims) (A : KeyAlg Mat) (ver tag : Byte) (pub : Bytes)
     (sym : Byte) (s2k : S2k) (iv data pw : Bytes) (m : Mat) (hv : isV3V4 ver = true)
     (h : unlock P A ver tag pub (.malleableCfb sym s2k iv) data pw = some m) :
-    ∃ key pt a b, P.derive s2k pw (Gen.c08SymKeySize sym.toNat) = some key ∧
-      P.cfbDec sym key iv data = some pt ∧ A.parse pt = some (m, [a, b]) ∧
-      a.toNat * 256 + b.toNat = sum16 (A.ser m) := unlock_sum16_sound P A ver tag pub sym s2k iv data pw m hv h
+    ∃ key mat a b, P.derive s2k pw (Gen.c08SymKeySize sym.toNat) = some key ∧
+      P.cfbDec sym key iv data = some (mat ++ [a, b]) ∧ A.parse mat = some (m, []) ∧
+      a.toNat * 256 + b.toNat = sum16 mat := unlock_sum16_sound P A ver tag pub sym s2k iv data pw m hv h
 
 theorem sum16_is_the_only_check_legacy {Mat} (P : Prims) (A : KeyAlg Mat) (ver tag : Byte) (pub : Bytes)
     (sym : Byte) (iv data pw : Bytes) (m : Mat) (hv : isV3V4 ver = true)
     (h : unlock P A ver tag pub (.legacyCfb sym iv) data pw = some m) :
-    ∃ pt a b, P.cfbDec sym (P.md5 pw) iv data = some pt ∧ A.parse pt = some (m, [a, b]) ∧
-      a.toNat * 256 + b.toNat = sum16 (A.ser m) := unlock_legacy_sound P A ver tag pub sym iv data pw m hv h
+    ∃ mat a b, P.cfbDec sym (P.md5 pw) iv data = some (mat ++ [a, b]) ∧ A.parse mat = some (m, []) ∧
+      a.toNat * 256 + b.toNat = sum16 mat := unlock_legacy_sound P A ver tag pub sym iv data pw m hv h
+
+/-- "a locked key that the library accepts from the wire unlocks with its password whichever S2K usage
+octet it carries", for the 16-bit-sum usages and **whichever encoding** the material was stored in
+(other implementations round MPI bit counts up to whole octets): any encoding `mat` the parser reads
+completely, followed by the sum of those octets, is opened by the right password (D8e: before the
+repair the sum was taken over the re-serialised material and such keys were refused) -/
+theorem wire_unlock_255_any_stored_encoding {Mat} (P : Prims) (A : KeyAlg Mat) (ver tag : Byte) (pub : Bytes)
+    (sym : Byte) (s2k : S2k) (iv data pw key mat : Bytes) (m : Mat) (hv : isV3V4 ver = true)
+    (hw : unlockWilling ver (.malleableCfb sym s2k iv) = true)
+    (hk : P.derive s2k pw (Gen.c08SymKeySize sym.toNat) = some key)
+    (hd : P.cfbDec sym key iv data = some (mat ++ be16 (sum16 mat)))
+    (hp : A.parse mat = some (m, [])) :
+    unlock P A ver tag pub (.malleableCfb sym s2k iv) data pw = some m :=
+  unlock_sum16_any_encoding P A ver tag pub sym s2k iv data pw key mat m hv hw hk hd hp
+
+theorem wire_unlock_legacy_any_stored_encoding {Mat} (P : Prims) (A : KeyAlg Mat) (ver tag : Byte) (pub : Bytes)
+    (sym : Byte) (iv data pw mat : Bytes) (m : Mat) (hv : isV3V4 ver = true)
+    (hw : unlockWilling ver (.legacyCfb sym iv) = true)
+    (hd : P.cfbDec sym (P.md5 pw) iv data = some (mat ++ be16 (sum16 mat)))
+    (hp : A.parse mat = some (m, [])) :
+    unlock P A ver tag pub (.legacyCfb sym iv) data pw = some m :=
+  unlock_legacy_any_encoding P A ver tag pub sym iv data pw mat m hv hw hd hp
+
+/-- the repair is in the tree the model was generated from; regression witness for the pre-repair form -/
+theorem d8e_repaired : Gen.fixD8eChecksumOverStoredOctets = 1 := fixD8e_on
+
+theorem d8e_prefix_witness :
+    parseCkReencoded toyAlgBitCount 4 ([8, 7] ++ be16 (sum16 [8, 7])) = none ∧
+    parseCkStored toyAlgBitCount 4 ([8, 7] ++ be16 (sum16 [8, 7])) = some 7 ∧
+    parseCkReencoded toyAlgBitCount 4 ([3, 7] ++ be16 (sum16 [3, 7])) = some 7 :=
+  reencoded_checksum_refuses_noncanonical_witness
 
 /-- the sum does not bind the material … -/
 theorem sum16_not_binding : ∃ x y : Bytes, x ≠ y ∧ x.length = y.length ∧ sum16 x = sum16 y :=
